@@ -77,6 +77,13 @@ num(1).
 num(2).
 num(0).
 numq(X,Y) :- num(X), num(Y).
+dn(z).
+dn(s(N)) :- dn(N).
+cand(a, z).
+cand(b, s(s(s(s(s(s(s(s(s(s(s(s(s(s(s(s(s(s(s(s(s(s(s(s(s(s(s(s(s(s(s(s(s(s(s(s(s(s(s(s(z))))))))))))))))))))))))))))))))))))))))).
+cand(c, z).
+pick(X) :- cand(X,T), once(dn(T)).
+pickn(X) :- cand(X,T), \\+ \\+ dn(T).
 col3(red).
 col3(green).
 col3(blue).
@@ -86,7 +93,7 @@ al(s(N), X) :- X = Y, al(N, Y).
 '''
 # (a single clause with 70 goals cannot be loaded: the generated code nests one block per goal and CPython allows 20)
 # queries whose answers (for their LAST argument) are known by construction, independently of any enumeration
-KNOWN = {'num': [1, 2, 0], 'many': ['done'], 'al': ['red', 'green', 'blue'], 'fin': ['a', 'b', ('f', ['c']), ('f', ['d'])], 'viacut': ['a', 'z']}
+KNOWN = {'pick': ['a', 'b', 'c'], 'pickn': ['a', 'b', 'c'], 'num': [1, 2, 0], 'many': ['done'], 'al': ['red', 'green', 'blue'], 'fin': ['a', 'b', ('f', ['c']), ('f', ['d'])], 'viacut': ['a', 'z']}
 DYN_QUERIES = ('dl', 'dgrow', 'dkeep', 'dkeep2', 'dret', 'colour', 'dcol', 'own')
 _LIB = None
 
@@ -113,7 +120,7 @@ def gen(seed, tier):
             ['nat', [V(0)]], ['loop', [V(0)]], ['lr', [V(0)]], ['deep', [V(0)]], ['two', [V(0), V(1)]],
             ['app', [V(0), V(1), lst(n % 9)]], ['len', [lst(n), V(0)]], ['len', [V(0), V(1)]], ['fin', [V(0)]],
             ['mem', [V(0), lst(n, ('a', 'b'))]], ['both', [V(0), V(1)]], ['cutnat', [V(0)]], ['ite', [V(0)]],
-            ['nat', [['f', 's', [['f', 's', [V(0)]]]]]], ['undefined_pred', [V(0)]], ['num', [V(0)]], ['numq', [V(0), V(1)]], ['viacut', [V(0)]], ['viacut2', [V(0)]], ['fm', [V(0)]], ['fl', [V(0), lst(n, ('a', 'b'))]], ['fl', [V(0), lst(max(n, 8), ('a', 'c'))]],
+            ['nat', [['f', 's', [['f', 's', [V(0)]]]]]], ['undefined_pred', [V(0)]], ['num', [V(0)]], ['numq', [V(0), V(1)]], ['pick', [V(0)]], ['pickn', [V(0)]], ['viacut', [V(0)]], ['viacut2', [V(0)]], ['fm', [V(0)]], ['fl', [V(0), lst(n, ('a', 'b'))]], ['fl', [V(0), lst(max(n, 8), ('a', 'c'))]],
         ])
         if rng.random() < 0.12:
             # a clause with 70 different goals; a variable aliased through k levels of recursion (answers known by construction)
